@@ -240,6 +240,80 @@ def h_loading_paths(eng, path):
         shutil.rmtree(tmp, ignore_errors=True)
 
 
+def h_random_dag(eng, k):
+    """a seeded random definition file: base units, a DAG of derived units with symbolic scales and
+    small integer exponents over earlier units, aliases, symbols ('_' placeholders), two prefixes,
+    lines shuffled; every unit's root factor and root units are those of the written products"""
+    import random as _r
+
+    rnd = _r.Random(f"c10-dag:{k}")
+    L = eng.lit
+    nb, nd = rnd.choice([2, 3]), rnd.choice([3, 4, 5])
+    bases = [f"b{i}" for i in range(nb)]
+    lines = [f"{b} = [dim{i}]" + rnd.choice(["", f" = B{i}_", f" = _ = base{i}"]) for i, b in enumerate(bases)]
+    model = {b: (1, {b: 1}) for b in bases}  # name -> (factor, root exponents)
+    spell = {b: [b] for b in bases}
+    for i, ln in enumerate(lines):
+        if "= B" in ln:
+            spell[bases[i]].append(f"B{i}_")
+        if "base" in ln:
+            spell[bases[i]].append(f"base{i}")
+    unit_lines = []
+    names = list(bases)
+    for j in range(nd):
+        nm = f"u{j}"
+        sc = eng.real(f"s{j}")
+        eng.assume(sc > 0)
+        refs = rnd.sample(names, rnd.choice([1, 2]) if len(names) > 1 else 1)
+        exps = [rnd.choice([-2, -1, 1, 2]) for _ in refs]
+        expr = L(sc) + "".join(f" * {r} ** {e}" if e != 1 else f" * {r}" for r, e in zip(refs, exps))
+        extra = rnd.choice(["", f" = U{j}_", f" = _ = unit{j}", f" = U{j}_ = unit{j} = einheit{j}"])
+        unit_lines.append(f"{nm} = {expr}{extra}")
+        f, roots = sc, {}
+        for r, e in zip(refs, exps):
+            rf, rr = model[r]
+            f = f * rf**e
+            for key, val in rr.items():
+                roots[key] = roots.get(key, 0) + val * e
+        model[nm] = (f, {key: val for key, val in roots.items() if val != 0})
+        spell[nm] = [nm] + ([f"U{j}_"] if "U%d_" % j in extra else []) + ([f"unit{j}"] if f"unit{j}" in extra else []) + ([f"einheit{j}"] if "einheit" in extra else [])
+        names.append(nm)
+    pk, pm = eng.real("pk"), eng.real("pm")
+    eng.assume(pk > 0)
+    eng.assume(pm > 0)
+    prefix_lines = [f"kk- = {L(pk)} = K-", f"mm- = {L(pm)}"]
+    body = lines + unit_lines + prefix_lines
+    rnd.shuffle(body)
+    ureg = pint.UnitRegistry(body, non_int_type=eng.ntype, on_redefinition="raise")
+    x = eng.real("x")
+    for nm in names:
+        f, roots = model[nm]
+        for sp in spell[nm]:
+            r = ureg.Quantity(x, sp).to_root_units()
+            eng.prove(Eq(r.magnitude, x * f), f"dag:factor:{sp}")
+            got = {key: Fraction(str(val.c if hasattr(val, "c") else val)) for key, val in r._units.items()}
+            eng.prove(got == {key: Fraction(val) for key, val in roots.items()}, f"dag:root-units:{sp}")
+            eng.prove(ureg.get_name(sp) == nm, f"dag:name:{sp}")
+        r = ureg.Quantity(x, "kk" + nm).to_root_units()
+        eng.prove(Eq(r.magnitude, x * pk * f), f"dag:prefixed:{nm}")
+        r = ureg.Quantity(x, "K" + spell[nm][-1] + "s").to_root_units() if len(spell[nm][-1]) > 1 else None
+        if r is not None:
+            eng.prove(Eq(r.magnitude, x * pk * f), f"dag:prefix-symbol-alias-plural:{nm}")
+    # any two units with the same root exponents convert into each other by the quotient of factors
+    for a in names:
+        for b in names:
+            if a < b and model[a][1] == model[b][1]:
+                r = ureg.Quantity(x, a).to(b)
+                eng.prove(Eq(r.magnitude, x * model[a][0] / model[b][0]), f"dag:convert:{a}->{b}")
+            elif a < b:
+                try:
+                    ureg.Quantity(x, a).to(b)
+                except DimensionalityError:
+                    pass
+                else:
+                    eng.fail(f"dag:converted-across-dimensions:{a}->{b}")
+
+
 ILL_FORMED = {
     "base-unit-with-scale": ["m = {a} * [length]"],
     "derived-dimension-references-unit": ["m = [length]", "s = [time]", "[speed] = [length] / s"],
@@ -320,7 +394,7 @@ def h_ill_formed(eng, kind):
     eng.prove(raised, f"{kind}:silently-accepted")
 
 
-MIN_DISCHARGED = {"H10.a": 40, "H10.b": 600, "H10.c": 100, "H10.e": 15}
+MIN_DISCHARGED = {"H10.a": 40, "H10.b": 600, "H10.c": 100, "H10.e": 15, "H10.f": 100}
 
 
 def cases(tier, seed):
@@ -342,4 +416,6 @@ def cases(tier, seed):
         out.append(Case("H10.c", path, M, "h_loading_paths", {"path": path}, opts=opts, validate=1 if path in ("file", "load_definitions") else 0, weight=6.0))
     for kind in ILL_FORMED:
         out.append(Case("H10.e", kind, M, "h_ill_formed", {"kind": kind}, opts=opts, validate=1))
+    for k in range(400 if big else 24):
+        out.append(Case("H10.f", f"dag-{seed}-{k:03d}", M, "h_random_dag", {"k": seed * 1000 + k}, opts=opts, validate=1, weight=2.0))
     return out
